@@ -50,6 +50,7 @@ const (
 //	holds  every node of A holds a Commit of relative node B
 //	vchg   every node of A has asked for a view change that has not happened yet
 //	preps  every node of A holds >= Cnt preparations; B = 1: and the PrepareRequest, B = 2: and no PrepareRequest
+//	nopreps3  no node of A holds M preparations
 //	hv     node A adopted the view of the recovery message delivered last (observation 3: what became of its responses)
 type C19Goal struct {
 	P   string `json:"p"`
@@ -177,7 +178,7 @@ func c19GenStoryOldCommit(t *rapid.T, c *C19Story) {
 	all := 1<<N - 1
 	p1 := N - 1
 	x := rapid.IntRange(0, N-2).Draw(t, "x")
-	z := rapid.SampledFrom(c19Members(all &^ c19Bit(x) &^ c19Bit(p1))).Draw(t, "z")
+	z := rapid.SampledFrom(c19Members(all&^c19Bit(x)&^c19Bit(p1))).Draw(t, "z")
 	others := all &^ c19Bit(x)
 	cm := others &^ c19Bit(z) // the five nodes that are to commit in view 1
 	yset := c19SubMask(t, cm, 1, 3, "yset")
@@ -343,11 +344,90 @@ func c19GenStoryHigherView(t *rapid.T, c *C19Story) {
 	g.end("E: everything delivered")
 }
 
+// c19GenStoryHiddenRecovery: the storyline for "the only copy of a preparation travels in a recovery message that is
+// read too early" (N = 4, f = 1, M = 3). X is relative node 0..2, view 1 has the primary A = relative 3.
+//
+//	A  X alone commits in view 0 (only X receives a third preparation)
+//	B  the other three time out: recovery requests first (they have not seen each other), then ChangeViews: view 1
+//	C  C (a backup of view 1) shows up in view 1 with a recovery request, then receives the view-1 proposal and B's
+//	   response and commits; its own response and its Commit are lost: A and B hold two preparations each
+//	D  A and B time out and ask for view 2 (they count one node, X, as committed or lost: not more than f)
+//	E  C answers with its recovery message; A and B read it while they are changing view: its preparations are
+//	   skipped, its commits are taken (dbft.onRecoveryMessage), from now on they would accept the preparations
+//
+// Afterwards two nodes are committed in different views and the other two lack one preparation that only C's
+// recovery message carries; C repeats it byte for byte on every timeout.
+func c19GenStoryHiddenRecovery(t *rapid.T, c *C19Story) {
+	const N = 4
+	g := &c19StoryGen{t: t, c: c}
+	all := 1<<N - 1
+	x := rapid.IntRange(0, N-2).Draw(t, "x")
+	others := all &^ c19Bit(x)
+	a := N - 1 // the primary of view 1
+	cc := rapid.SampledFrom(c19Members(others&^c19Bit(a))).Draw(t, "c")
+	b := c19Members(others &^ c19Bit(a) &^ c19Bit(cc))[0]
+	c.Roles = map[string]int{"X": x, "A": a, "B": b, "C": cc}
+	backups := all &^ 1
+	// A
+	g.add(C19Ph{K: "del", T: c19TReq, V: 1})
+	need := 1
+	if x == 0 {
+		need = 2
+	}
+	g.add(C19Ph{K: "del", T: c19TResp, V: 1, To: c19Bit(x), From: c19SubMask(t, backups&^c19Bit(x), need, N, "xresp")})
+	g.end("A: X alone commits in view 0", C19Goal{P: "csent", A: c19Bit(x), B: others}, C19Goal{P: "view", A: all, V: 0})
+	g.jitterOf("dup", "t")
+	// B
+	for r := rapid.SampledFrom([]int{2, 2, 2, 3}).Draw(t, "rounds0"); r > 0; r-- {
+		g.add(C19Ph{K: "fire", To: others, V: 1})
+		g.add(C19Ph{K: "del", T: c19TRecReq | c19TCV, V: 1, From: others, To: others})
+		g.add(C19Ph{K: "lose", T: c19TRecMsg, V: 1})
+	}
+	g.end("B: the others agree on view 1", C19Goal{P: "view", A: others, V: 1}, C19Goal{P: "view", A: c19Bit(x), V: 0})
+	xCommitEarly := rapid.Bool().Draw(t, "xcommit-early")
+	if xCommitEarly { // X's view-0 commit reaches some of the others now (they count X as committed instead of lost)
+		g.add(C19Ph{K: "del", T: c19TCommit, V: 1, From: c19Bit(x), To: c19SubMask(t, others, 1, N, "xcto")})
+	}
+	// C
+	g.add(C19Ph{K: "fire", To: c19Bit(cc), V: 2})
+	g.add(C19Ph{K: "del", T: c19TRecReq | c19TCV, V: 2, From: c19Bit(cc), To: c19Bit(a) | c19Bit(b)})
+	g.add(C19Ph{K: "lose", T: c19TRecMsg, V: 2})
+	if !c.AutoZero {
+		g.add(C19Ph{K: "fire", To: c19Bit(a), V: 2})
+	}
+	g.add(C19Ph{K: "del", T: c19TReq, V: 2, To: c19Bit(b) | c19Bit(cc)})
+	g.add(C19Ph{K: "del", T: c19TResp, V: 2, From: c19Bit(b), To: c19Bit(a) | c19Bit(cc)})
+	g.add(C19Ph{K: "lose", T: c19TResp | c19TCommit, V: 2, From: c19Bit(cc)})
+	g.end("C: C alone commits in view 1, its response is lost", C19Goal{P: "csent", A: c19Bit(cc), B: c19Bit(a) | c19Bit(b)}, C19Goal{P: "preps", A: c19Bit(a) | c19Bit(b), Cnt: 2, B: 1})
+	// D
+	g.add(C19Ph{K: "fire", To: c19Bit(a) | c19Bit(b), V: 2})
+	g.end("D: A and B ask for view 2", C19Goal{P: "vchg", A: c19Bit(a) | c19Bit(b)})
+	// E
+	g.add(C19Ph{K: "del", T: c19TCV, V: 2, From: c19Bit(a) | c19Bit(b), To: c19Bit(cc) | c19Bit(a) | c19Bit(b)})
+	g.add(C19Ph{K: "del", T: c19TRecMsg, V: 2, From: c19Bit(cc), To: c19Bit(a) | c19Bit(b)})
+	g.end("E: A and B read C's recovery message while changing view", C19Goal{P: "holds", A: c19Bit(a) | c19Bit(b), B: cc}, C19Goal{P: "preps", A: c19Bit(a) | c19Bit(b), Cnt: 2, B: 1}, C19Goal{P: "nopreps3", A: c19Bit(a) | c19Bit(b)})
+	if !xCommitEarly && rapid.Bool().Draw(t, "xcommit-late") {
+		g.add(C19Ph{K: "del", T: c19TCommit, V: 1, From: c19Bit(x), To: others})
+	}
+}
+
+// jitterOf: now and then one plain event of the given kinds between two phases.
+func (g *c19StoryGen) jitterOf(kinds ...string) {
+	if rapid.IntRange(0, 5).Draw(g.t, "jitter") != 0 {
+		return
+	}
+	ev := C19Ev{K: rapid.SampledFrom(kinds).Draw(g.t, "jkind"), A: rapid.IntRange(0, 40).Draw(g.t, "ja")}
+	g.add(C19Ph{K: "ev", Ev: &ev})
+}
+
 func c19GenStory(t *rapid.T) C19Story {
-	c := C19Story{Kind: rapid.SampledFrom([]string{"old-commit", "old-commit", "higher-view"}).Draw(t, "kind")}
+	c := C19Story{Kind: rapid.SampledFrom([]string{"old-commit", "old-commit", "old-commit", "old-commit", "higher-view", "higher-view", "hidden-recovery"}).Draw(t, "kind")}
 	c.N = 7
 	if c.Kind == "higher-view" {
 		c.N = rapid.SampledFrom([]int{4, 7}).Draw(t, "n")
+	}
+	if c.Kind == "hidden-recovery" {
+		c.N = 4
 	}
 	c.SRIH = rapid.Bool().Draw(t, "srih")
 	c.Bypass = rapid.Bool().Draw(t, "bypass")
@@ -357,9 +437,15 @@ func c19GenStory(t *rapid.T) C19Story {
 	if rapid.IntRange(0, 3).Draw(t, "skewed") == 0 {
 		c.Skew = rapid.SliceOfN(rapid.SampledFrom([]int{0, 0, 1, 500, 3000}), c.N, c.N).Draw(t, "skew")
 	}
-	if c.Kind == "old-commit" {
+	switch c.Kind {
+	case "old-commit":
 		c19GenStoryOldCommit(t, &c)
-	} else {
+	case "hidden-recovery":
+		c19GenStoryHiddenRecovery(t, &c)
+		g := &c19StoryGen{t: t, c: &c}
+		g.add(C19Ph{K: "flush", Max: 900})
+		g.end("F: everything delivered")
+	default:
 		c19GenStoryHigherView(t, &c)
 	}
 	nt := rapid.IntRange(0, 60).Draw(t, "ntail")
@@ -472,7 +558,7 @@ func (s *c19StoryRun) step(ph C19Ph) error {
 		}
 	case "sil":
 		for _, n := range s.nodes(ph.To) {
-			if !n.silent && net.silentCount() < net.f {
+			if !n.silent && net.maySilence(n) {
 				n.silent = true
 				net.label("silent-node")
 				net.logf("silence n%d", n.idx)
@@ -545,6 +631,18 @@ func (s *c19StoryRun) goal(name string, g C19Goal) bool {
 				return false
 			}
 		}
+	case "nopreps3": // no node of A holds M preparations
+		for _, n := range s.nodes(g.A) {
+			cnt := 0
+			for _, p := range n.srv.dbft.PreparationPayloads {
+				if p != nil {
+					cnt++
+				}
+			}
+			if !here(n) || cnt >= n.srv.dbft.M() {
+				return false
+			}
+		}
 	case "preps":
 		for _, n := range s.nodes(g.A) {
 			if !here(n) {
@@ -594,34 +692,76 @@ func (s *c19StoryRun) goal(name string, g C19Goal) bool {
 	return true
 }
 
+// c19NewStoryRun prepares the interpreter for a started network of n validators (constant validator set).
+func c19NewStoryRun(net *c19Net, w *c19World, n int) (*c19StoryRun, error) {
+	s := &c19StoryRun{net: net, n: n, h0: w.baseH + 1, p0: int(w.baseH+1) % n}
+	if got := int(net.nodes[0].srv.dbft.GetPrimaryIndex(0)); got != s.p0 {
+		return nil, fmt.Errorf("HARNESS: primary of the first height is validator %d, storyline assumes %d", got, s.p0)
+	}
+	s.nodeOf, s.valOf = make([]int, n), make([]int, n)
+	for _, k := range net.nodes {
+		if k.snap.myIndex < 0 || k.snap.myIndex >= n {
+			return nil, fmt.Errorf("HARNESS: storyline on a network where node %d is no validator", k.idx)
+		}
+		s.valOf[k.idx] = k.snap.myIndex
+		s.nodeOf[k.snap.myIndex] = k.idx
+	}
+	return s, nil
+}
+
+// runSteps executes the steps of a storyline and labels its phases.
+func (s *c19StoryRun) runSteps(steps []C19Ph) (executed int, reachedAll bool, err error) {
+	net := s.net
+	reachedAll = true
+	for i, ph := range steps {
+		if net.deliveries >= c19MaxDeliveries {
+			break
+		}
+		net.logf("=%d %s %q classes=%#x from=%#x to=%#x v+1=%d max=%d (pending %d)", i, ph.K, ph.Name, ph.T, ph.From, ph.To, ph.V, ph.Max, len(net.pending))
+		if err := s.step(ph); err != nil {
+			return executed, reachedAll, err
+		}
+		if net.autoZero {
+			if err := net.autoFire(); err != nil {
+				return executed, reachedAll, err
+			}
+		}
+		executed++
+		if ph.Name != "" {
+			ok := true
+			for _, g := range ph.Goals {
+				if !s.goal(ph.Name, g) {
+					ok = false
+				}
+			}
+			reachedAll = reachedAll && ok
+			verdict := map[bool]string{true: "reached", false: "missed"}[ok]
+			net.logf("   phase %q: %s", ph.Name, verdict)
+			net.label(ph.Name + ": " + verdict)
+		}
+	}
+	return executed, reachedAll, nil
+}
+
 func c19CheckStory(c C19Story, o *vt.Obs) (err error) {
 	if c.N != 4 && c.N != 7 {
 		return fmt.Errorf("bad case: n=%d", c.N)
 	}
-	w, err := c19GetWorld(c.N, c.SRIH)
+	w, err := c19GetWorld(c.N, c.SRIH, nil)
 	if err != nil {
 		return fmt.Errorf("HARNESS: world: %w", err)
 	}
 	net, err := c19NewNet(w, c.Pools, c.Skew, c.Bypass, c.PoolFirst, C19Lim{})
 	defer net.close()
 	if err != nil {
-		return fmt.Errorf("HARNESS: network: %w", err)
+		return c19NetErr(net, err)
 	}
 	net.autoZero = c.AutoZero
-	s := &c19StoryRun{net: net, n: c.N, h0: w.baseH + 1, p0: int(w.baseH+1) % c.N}
 	executed := 0
 	reachedAll := true
 	err = func() error {
 		if err := net.start(); err != nil {
 			return err
-		}
-		if got := int(net.nodes[0].srv.dbft.GetPrimaryIndex(0)); got != s.p0 {
-			return fmt.Errorf("HARNESS: primary of the first height is validator %d, storyline assumes %d", got, s.p0)
-		}
-		s.nodeOf, s.valOf = make([]int, c.N), make([]int, c.N)
-		for _, n := range net.nodes {
-			s.valOf[n.idx] = n.snap.myIndex
-			s.nodeOf[n.snap.myIndex] = n.idx
 		}
 		auto := func() error {
 			if net.autoZero {
@@ -632,30 +772,14 @@ func c19CheckStory(c C19Story, o *vt.Obs) (err error) {
 		if err := auto(); err != nil {
 			return err
 		}
-		for i, ph := range c.Steps {
-			if net.deliveries >= c19MaxDeliveries {
-				break
-			}
-			net.logf("=%d %s %q classes=%#x from=%#x to=%#x v+1=%d max=%d (pending %d)", i, ph.K, ph.Name, ph.T, ph.From, ph.To, ph.V, ph.Max, len(net.pending))
-			if err := s.step(ph); err != nil {
-				return err
-			}
-			if err := auto(); err != nil {
-				return err
-			}
-			executed++
-			if ph.Name != "" {
-				ok := true
-				for _, g := range ph.Goals {
-					if !s.goal(ph.Name, g) {
-						ok = false
-					}
-				}
-				reachedAll = reachedAll && ok
-				verdict := map[bool]string{true: "reached", false: "missed"}[ok]
-				net.logf("   phase %q: %s", ph.Name, verdict)
-				net.label(ph.Name + ": " + verdict)
-			}
+		s, err := c19NewStoryRun(net, w, c.N)
+		if err != nil {
+			return err
+		}
+		n, all, err := s.runSteps(c.Steps)
+		executed, reachedAll = n, all
+		if err != nil {
+			return err
 		}
 		for i, ev := range c.Tail {
 			if net.deliveries >= c19MaxDeliveries {
